@@ -363,3 +363,26 @@ PROPS["C17"] = dict(
     assumptions=SDL_ASSUME,
     design_ref="DESIGN.md section 5 C17",
 )
+
+PROPS["C19"] = dict(
+    pkg="sub", test="TestC19", engine="sub",
+    quick=dict(checks=3000, shards=3), thorough=dict(checks=320000, shards=16),
+    nt_floor=dict(quick=500, thorough=50000),
+    must_classes=["publish-with->=2-matches", "failing-delivery", "failing-delivery-not-last", "unsubscribe-proper-subset", "re-subscribe-after-removal",
+                  "events-by=R", "events-by=X", "events-by=A"],
+    level="exploration",
+    technique="stateful model-based testing: generated histories of subscribe / publish / unsubscribe against an ordered-list model of the live subscribers; delivered payloads compared with the reference executor's result of each subscriber's own selection",
+    rule="Histories of 5-40 steps: subscribe = a real `subscription {watch|listen(id) {...}}` request whose selection set (aliases, fragments,"
+         " nested objects and lists) is generated, resolved against a schema whose Subscription fields return ggql.NewSubscription with a"
+         " harness Subscriber (exact or prefix Match, a plan of which of its deliveries fail); publish = Root.AddEvent(id, event) with events"
+         " from a cyclic graph served by Resolver objects, reflection structs or the root resolver; unsubscribe = Root.Unsubscribe(id)."
+         " Oracle after every step (model = ordered list of live subscribers): returned count = matching live subscribers; the Send order ="
+         " registration order; each matching subscriber got exactly one message equal to its own selection applied to the event (reference"
+         " executor); non-matching and removed subscribers got nothing; a failed Send removes the subscriber and err != nil; clean-up runs"
+         " exactly once per removed subscriber and never for a live one. Non-trivial = history has a publish with >= 2 matches, a failing"
+         " delivery and an unsubscribe of a proper subset.",
+    level_text="Histories are sampled; every step is checked exactly against the model.",
+    level_note="Trusted: the list model, the reference executor for payloads. Selections carry no variables (AddEvent resolves with an empty variable map).",
+    assumptions=EXEC_ASSUME + ["one subscription field per subscription request (the registration order of two fields of one request follows Go map order)"],
+    design_ref="DESIGN.md section 5 C19",
+)
